@@ -26,7 +26,12 @@ func main() {
 	out := flag.String("out", "cases.txt", "output file")
 	stats := flag.String("stats", "", "generator statistics (JSON)")
 	replay := flag.String("replay", "", "program file to re-execute instead of generating")
+	race := flag.String("race", "", "stress scenario (c06 | c07): run it for -seconds and exit")
+	seconds := flag.Float64("seconds", 3, "duration of a stress scenario")
 	flag.Parse()
+	if *race != "" {
+		runRace(*race, *seconds, *seed)
+	}
 	su, ok := suites[*suite]
 	if !ok {
 		fmt.Fprintln(os.Stderr, "unknown suite", *suite)
